@@ -6,14 +6,14 @@ set -u
 wt=$1
 export CARGO_NET_OFFLINE=true CARGO_TARGET_DIR=$wt/target
 cd "$wt" || exit 2
-if grep -q "incremental_map" OUT/demo.rs; then demo=incremental-map/tests/seeded_demo.rs; pkg=incremental-map; else demo=tests/seeded_demo.rs; pkg=incremental; fi
+if grep -q "incremental_map" OUT/demo.rs; then demo=incremental-map/tests/seeded_demo.rs; pkg=incremental-map; feat="--features im"; else demo=tests/seeded_demo.rs; pkg=incremental; feat=""; fi
 git checkout -q -- . ; rm -f tests/seeded_demo.rs incremental-map/tests/seeded_demo.rs
 git apply OUT/patch.diff || { echo "patch does not apply"; exit 2; }
 cargo test --workspace --no-fail-fast --offline > OUT/confirm_suite.log 2>&1; suite=$?
 cp OUT/demo.rs $demo
-cargo test --offline -p $pkg --test seeded_demo > OUT/confirm_demo_with.log 2>&1; with=$?
+cargo test --offline -p $pkg $feat --test seeded_demo > OUT/confirm_demo_with.log 2>&1; with=$?
 git checkout -q -- .
-cargo test --offline -p $pkg --test seeded_demo > OUT/confirm_demo_without.log 2>&1; without=$?
+cargo test --offline -p $pkg $feat --test seeded_demo > OUT/confirm_demo_without.log 2>&1; without=$?
 rm -f $demo
 echo "suite_with_patch_rc=$suite demo_with_patch_rc=$with demo_without_patch_rc=$without"
 grep -h "^test result" OUT/confirm_suite.log | awk '{p+=$4; f+=$6} END {print "suite passed=" p " failed=" f}'
